@@ -190,17 +190,23 @@ pub fn eval(bases: &[BaseImg], c: &MountCase) -> CaseOut {
                 let _ = fs.read_status_flags();
                 let _ = fs.volume_label();
                 let _ = fs.volume_id();
-                let _ = fs.read_volume_label_from_root_dir();
-                let root = fs.root_dir();
-                for e in root.iter().take(64) {
-                    match e {
-                        Ok(e) => {
-                            let _ = (e.file_name(), e.len(), e.is_dir());
+                // The property is about the boot sector and the FS-info sector. With a patched geometry the table
+                // and the directory clusters are whatever bytes happen to lie there; following cluster chains
+                // through that garbage is outside C07 (and C17 requires valid cluster pointers). So the root is
+                // listed only where no chain is followed: the fixed root of FAT12/16.
+                if width != 32 {
+                    let _ = fs.read_volume_label_from_root_dir();
+                    let root = fs.root_dir();
+                    for e in root.iter().take(64) {
+                        match e {
+                            Ok(e) => {
+                                let _ = (e.file_name(), e.len(), e.is_dir());
+                            }
+                            Err(_) => break,
                         }
-                        Err(_) => break,
                     }
+                    drop(root);
                 }
-                drop(root);
                 drop(fs);
                 Ok(Accepted { width, cluster_size: cs, clusters })
             }
